@@ -1,7 +1,7 @@
 PROP = {
     'level': 'proof',
     'coq': ['Properties/C12.v'],
-    'coq_gen': [],
+    'coq_gen': ['Properties/C12_gen_r8.v'],
     'rule': ("the real liteclient.Client (Request, registry, per-connection readers, Connection status machine, reconnect) "
              "against an in-process fake ADNL lite server on loopback TCP (server side of handshake and framing in the "
              "harness; query ids learnt from the received queries). c12.script: 1..64 concurrent callers x 1..4 connections, "
@@ -98,3 +98,6 @@ META = {
              "liveness is an enabled path; auth-key connections are not modelled; distinct ids assumed."),
     'technique': 'Coq invariants over all traces of an LTS + extracted-model prediction / trace acceptance on the real concurrent client + source-order check',
 }
+
+# ROUND-8-APPEND
+PROP['rule'] += " Round 8: c12.greet: the boundary between handshake and session on the wire - the fake server writes packets in the SAME Write as its handshake answer (unknown magic, pong / answer for unknown ids, auth nonce, empty and short payloads, a 5 KiB burst longer than a bufio buffer, and on a re-established connection the answers of the calls that were in flight when the old one was reset), on every connection and generation, 1-2 hook connections and the unmodified NewConnection/NewClient: every call gets its own answer before and after the reconnect, in-flight calls get the answer written behind the new handshake answer, registry empty, Connection.mu not stuck. c12.locks (go/ast over package liteclient, lock state followed through the statements) and the coq_gen obligation C12_gen_no_reentrant_locking over Generated/ConnLocks.v + ConnSends.v: no method is called with the receiver's mu held that locks that mu itself, directly or through what it calls synchronously on the same receiver (sync.Mutex is not re-entrant); non-vacuity: the lockers of connection.go and the held call handleAuthResponse -> sendAuthComplete are found."
